@@ -196,6 +196,9 @@ def gen_layout_c03(rng):
     if rng.random() < 0.3:
         h.setdefault("pre", []).append(rng.choice(["def  odd( a,b ):\n    return [a ,b]", "T = ( 1,\n      2 )  # é", "class  K : pass"]))
     if rng.random() < 0.25:
+        # characters that str.splitlines() treats as line ends but the Python tokenizer does not
+        h.setdefault("pre", []).append(rng.choice(["\x0c", "# page \x0c break", "SEP = 'a\u2028b'  # \u2028", "# nel \x85 in a comment", "FS = 'x\x1cy'"]))
+    if rng.random() < 0.25:
         # the last import of the leading import block shares its line with another statement / a comment
         h["pre"] = [rng.choice(["import json; J = json.dumps(1)  # optional é", "import os  # keep", "import os, sys; P = os.sep"])] + h.get("pre", [])
     return h
